@@ -35,7 +35,12 @@ def run(ck):
     # the ACK payload send()/resend() return is fetched through any()/read()/pipe: their decode tables (R10.1, R10.6; ACK payloads arrive on
     # pipe 0) are part of "returns the peer's ACK payload"
     c10.run_for(ck, radio, agg)
+    # "the peer's ACK payload instead of True" is decided from RX_DR of the STATUS that ended the wait: that is this transmission's RX_DR only
+    # because write() clears all three flags (0x70) before it loads the payload; a full TX FIFO is reported, nothing is loaded (R02.11 =
+    # C01's R01.4, re-run here)
+    n11 = link.write_cmd(radio, agg, rule="R02.11")
     agg.flush()
+    ck.floor("R02.11", "write() scenarios", n11, 8)
     ck.floor("R02.4", "send() prologue scenarios", n[0], 256)
     ck.floor("R02", "send() outcome scenarios", n[1], 4)
     ck.floor("R02.6", "resend() paths", n[2], 8)
